@@ -551,10 +551,10 @@ func (vc *VC) rangeAssumption(v Term, t types.Type, alloc Term) Term {
 	if _, ok := vc.tt.isOpaque(t); ok {
 		return True
 	}
-	if _, ok := types.Unalias(t).(*types.TypeParam); ok {
+	if isAbstractTP(t) {
 		return True
 	}
-	switch u := t.Underlying().(type) {
+	switch u := U(t).(type) {
 	case *types.Basic:
 		if w, signed, ok := intInfo(u); ok && vc.mode == ModeInt {
 			if signed {
@@ -569,7 +569,7 @@ func (vc *VC) rangeAssumption(v Term, t types.Type, alloc Term) Term {
 		c := And(Lt(Rid(v), alloc))
 		c = And(c, Implies(Eq(Rid(v), IntLit(0)), Eq(Roff(v), IntLit(0))))
 		c = And(c, Implies(Neq(Rid(v), IntLit(0)), Eq(App(SInt, "dyn", v), IntLit(int64(vc.tt.TID(u.Elem()))))))
-		if _, isStruct := u.Elem().Underlying().(*types.Struct); isStruct {
+		if _, isStruct := U(u.Elem()).(*types.Struct); isStruct {
 			if _, opq := vc.tt.isOpaque(u.Elem()); !opq {
 				// struct pointers that flow into the function (parameters, loads, call results) are
 				// assumed to point to whole allocations, not into the middle of another object
